@@ -1,6 +1,7 @@
 package rules
 
 import (
+	"fmt"
 	"go/token"
 	"go/types"
 
@@ -26,6 +27,66 @@ func runC14(p *core.Prog, r *core.Report) {
 	c14R3(p, r)
 	c14R4(p, r)
 	c14R5(p, r)
+	c14R6(p, r)
+	// the target's head request resolves the tag exactly (shared with C06.R6): a stale entry that is
+	// matched loosely makes every repeated copy rewrite the layout
+	c06R6(p, r, "C14.R7")
+}
+
+// c14R6: whether anything has to be written is decided by asking the target. The head request on the
+// target comes before the source manifest is fetched, on every path.
+func c14R6(p *core.Prog, r *core.Report) {
+	const rule = "C14.R6"
+	r.Rule(rule, "the target is always asked first: in the copy traversal a ManifestHead on the target reference dominates every ManifestGet on the source (a copy that skips the head request cannot see that the target already holds the image and writes it again)", 1)
+	trav := copyTraversal(p)
+	if trav == nil {
+		r.MissingAnchor(rule, "copy traversal")
+		return
+	}
+	paramOf := func(v ssa.Value) *ssa.Parameter {
+		var out *ssa.Parameter
+		for _, o := range core.Origins(v, core.SliceOpts{Through: refThroughAll}) {
+			if o.Kind == core.OParam && core.IsModNamed(o.Param.Type(), "types/ref", "Ref") {
+				out = o.Param
+			}
+		}
+		return out
+	}
+	var tgt *ssa.Parameter
+	for _, c := range core.CallsTo(trav, func(f *types.Func) bool { return core.IsModMethod(f, ".", "RegClient", "ManifestPut") }) {
+		if pr := paramOf(core.CallArg(c, 2)); pr != nil {
+			tgt = pr
+		}
+	}
+	if tgt == nil {
+		r.MissingAnchor(rule, "target reference parameter of the copy traversal (argument of ManifestPut)")
+		return
+	}
+	var heads, gets []ssa.CallInstruction
+	for _, c := range core.CallsTo(trav, func(f *types.Func) bool { return core.IsModMethod(f, ".", "RegClient", "ManifestHead") }) {
+		if paramOf(core.CallArg(c, 2)) == tgt {
+			heads = append(heads, c)
+		}
+	}
+	for _, c := range core.CallsTo(trav, func(f *types.Func) bool { return core.IsModMethod(f, ".", "RegClient", "ManifestGet") }) {
+		if pr := paramOf(core.CallArg(c, 2)); pr != nil && pr != tgt {
+			gets = append(gets, c)
+		}
+	}
+	if len(heads) == 0 || len(gets) == 0 {
+		r.Undecided(rule, p.FuncName(trav), "target head / source get", p.Pos(trav.Pos()), fmt.Sprintf("%d head request(s) on the target, %d manifest fetch(es) from the source found", len(heads), len(gets)))
+		return
+	}
+	lab := labeler{}
+	for _, g := range gets {
+		ok := false
+		for _, h := range heads {
+			if core.DominatesInstr(h.(ssa.Instruction), g.(ssa.Instruction)) {
+				ok = true
+			}
+		}
+		r.Check(ok, rule, p.FuncName(trav), lab.next("source fetch behind target head"), p.Pos(g.Pos()), "the source manifest can be fetched on a path that never asked the target what it holds: the comparison with the target's digest cannot short-circuit, and an identical image is written again")
+	}
 }
 
 // edgeOfCall returns the CFG edges on which the boolean result of a call satisfying pred is `val`.
